@@ -533,6 +533,10 @@ class ScriptBackend(TrialBackend):
                 res[AUX] = float("inf") if self.rng.random() < 0.5 else float("-inf")
             elif u < 0.9:
                 res[AUX] = self.rng.randrange(-64, 65) / 16.0 if self.rng.random() < 0.7 else self.rng.randrange(-3, 4)
+            if self.p.get("report_hp_name") and t.get("config") and self.rng.random() < 0.5:
+                # the script reports a value under the name of one of its hyperparameters (e.g. the current learning rate)
+                hk = sorted(k_ for k_ in t["config"] if k_ not in (MAXATTR,))[0]
+                res[hk] = 1000 + r
             if self.p.get("nan_metric") and self.rng.random() < 0.2:
                 res[self.metric_names[0]] = float("nan")
         t["metrics"].append(res)
@@ -2498,10 +2502,19 @@ def monitor_c17(t, view=None):
                 continue
             with contextlib.redirect_stdout(io.StringIO()):
                 try:
-                    best_tid = t["tuner"].best_config(metric=i)[0]
+                    best_tid, best_cfg = t["tuner"].best_config(metric=i)
                 except Exception as ex:  # noqa
                     out.append(F("c17:best-config-raises", f"Tuner.best_config(metric={i}) raised {type(ex).__name__}"))
                     continue
+            # the configuration reported with the best trial is that trial's configuration (also when the script reports a
+            # value under the name of a hyperparameter)
+            td = t["tuner"].trial_backend._trial_dict.get(best_tid)
+            if td is not None and {k_: v_ for k_, v_ in dict(best_cfg).items() if k_ in td.config} != dict(td.config) and \
+                    not any(f["signature"] == "c17:best-config-not-the-trials" for f in out):
+                out.append(F("c17:best-config-not-the-trials", f"Tuner.best_config(metric={i}) names trial {best_tid} with configuration "
+                             f"{dict(best_cfg)!r}, the trial runs with {dict(td.config)!r}"))
+            if False:
+                pass
             opt = min(v for _, v in vals) if modes[i] == "min" else max(v for _, v in vals)
             mine = [v for tid, v in vals if tid == best_tid]
             if not mine or (min(mine) if modes[i] == "min" else max(mine)) != opt:
